@@ -795,7 +795,9 @@ impl HeaderBuilder {
     ///
     /// This function will panic if it used to set a header label from the range [1, 6].
     #[must_use]
-    pub fn value(self, label: i64, value: Value) -> Self { let mut self_ = self;
+    pub fn value(self, label: i64, value: Value) ->« (r:» Self«)
+        requires !(1 <= label <= 7),
+        ensures r.inner() == (Header { rest: r.inner().rest, ..self.inner() }), r.inner().rest@ == self.inner().rest@.push((Label::Int(label), value)),» { let mut self_ = self;
         if label >= iana::HeaderParameter::Alg.to_i64()
             && label <= iana::HeaderParameter::CounterSignature.to_i64()
         {
